@@ -3,7 +3,7 @@
    operations under their preconditions) they raise no internal error. *)
 From Coq Require Import List NArith Bool Lia.
 From SV Require Import lib.Bytes lib.Closure model.Graph model.GraphInv
-  proofs.GraphBase proofs.GraphNodes proofs.GraphInvP proofs.GraphPrims proofs.GraphCreate.
+  proofs.GraphBase proofs.GraphNodes proofs.GraphInvP proofs.GraphPrims proofs.GraphFrames proofs.GraphCreate.
 Import ListNotations.
 Open Scope N_scope.
 
@@ -99,12 +99,14 @@ Lemma declare_file_spec strict c l f s :
   wpg strict (declare_file c l f s)
       (fun s' => Inv hh s' /\ NF [(KFile, l)] s s' /\ In (KFile, l) (KL (nodes s')) /\
                  creator_of (KFile, l) s' = Some c /\
-                 exists st, fstate_of l s' = Some st /\ (st = f \/ out_state st = true)).
+                 (exists st, fstate_of l s' = Some st /\ (st = f \/ out_state st = true)) /\
+                 (creator_quiet (Some c) f s -> GG s s')).
 Proof.
   intros HI Hst. unfold declare_file.
   set (Q := fun s' => Inv hh s' /\ NF [(KFile, l)] s s' /\ In (KFile, l) (KL (nodes s')) /\
                       creator_of (KFile, l) s' = Some c /\
-                      exists st, fstate_of l s' = Some st /\ (st = f \/ out_state st = true)).
+                      (exists st, fstate_of l s' = Some st /\ (st = f \/ out_state st = true)) /\
+                      (creator_quiet (Some c) f s -> GG s s')).
   assert (Hbad : forall t, f <> FUnconfirmed -> f <> FPlanned -> f <> FVolatile -> wpg strict (@Internal st t) Q).
   { intros t H1 H2 H3. destruct strict; [|exact I]. cbn. destruct (Hst eq_refl) as [[H|[H|H]] _]; congruence. }
   assert (Hcreate : wpg strict (create (KFile, l) (Some c) (InitFile f) s) Q \/
@@ -113,7 +115,7 @@ Proof.
       (eapply wpg_weaken; [apply (@create_spec hh); [exact HI | split; [reflexivity | discriminate] |
          intros Hs; destruct (Hst Hs) as [_ [Hg Hd]]; split; [apply creator_ok_good; exact Hg|];
          split; [exact Hd | intros f0 Hf0; inversion Hf0; reflexivity]] |
-       intros s' [H1 [H2 [H3 [_ [H5 H6]]]]]; unfold Q; split; [exact H1|]; split; [exact H2|]; split; [exact H3|]; split; [exact H5|]; apply (H6 _ eq_refl)]). }
+       intros s' [H1 [H2 [H3 [_ [H5 [H6 [H7 _]]]]]]]; unfold Q; split; [exact H1|]; split; [exact H2|]; split; [exact H3|]; split; [exact H5|]; split; [apply (H6 _ eq_refl) | intros Hq; apply H7; intros f0 Hf0; inversion Hf0; subst f0; exact Hq]]). }
   destruct f; try (apply Hbad; discriminate);
     (destruct Hcreate as [Hc|[H1 [H2 H3]]]; [|congruence]);
     apply wpg_bind; eapply wpg_weaken; try exact Hc; intros s1 HQ1; cbn [wpg]; auto.
@@ -134,27 +136,28 @@ Qed.
 Lemma resolve_supply_file_spec strict step l rn s :
   Inv hh s ->
   wpg strict (resolve_supply_file step l rn s)
-      (fun r => Inv hh (fst r) /\ NF [] s (fst r) /\ In (KFile, l) (KL (nodes (fst r)))).
+      (fun r => Inv hh (fst r) /\ NF [] s (fst r) /\ In (KFile, l) (KL (nodes (fst r))) /\ GG s (fst r)).
 Proof.
   intros HI. pose proof (inv_nw _ HI) as HW. unfold resolve_supply_file.
   assert (Hcreate : is_detached (KFile, l) s = true ->
             wpg strict (create (KFile, l) None (InitFile FUndeclared) s)
-                (fun s1 => Inv hh s1 /\ NF [] s s1 /\ In (KFile, l) (KL (nodes s1)))).
+                (fun s1 => Inv hh s1 /\ NF [] s s1 /\ In (KFile, l) (KL (nodes s1)) /\ GG s s1)).
   { intros Hd. eapply wpg_weaken.
     - apply (@create_spec hh); [exact HI | split; [reflexivity | reflexivity] |].
       intros _. split; [reflexivity|]. split; [exact Hd|]. intros f Hf. inversion Hf. reflexivity.
-    - intros s1 [H1 [H2 [H3 [H4 _]]]]. split; [exact H1|]. split; [|exact H3].
-      eapply NF_nil_of_create; [exact H2 | exact H4]. }
-  assert (Hfin : forall s1, Inv hh s1 -> NF [] s s1 -> In (KFile, l) (KL (nodes s1)) ->
+    - intros s1 [H1 [H2 [H3 [H4 [_ [_ [H7 _]]]]]]]. split; [exact H1|]. split; [|split; [exact H3|]].
+      + eapply NF_nil_of_create; [exact H2 | exact H4].
+      + apply H7. intros f0 _ x Hx. discriminate. }
+  assert (Hfin : forall s1, Inv hh s1 -> NF [] s s1 -> In (KFile, l) (KL (nodes s1)) -> GG s s1 ->
             wpg strict (let isnew := negb (has_dep (KFile, l) (KStep, step) s1) in
                         if negb isnew && rn then Usage 205 else Ok (s1, isnew))
-                (fun r => Inv hh (fst r) /\ NF [] s (fst r) /\ In (KFile, l) (KL (nodes (fst r))))).
-  { intros s1 H1 H2 H3. cbn zeta. destruct (negb (negb (has_dep (KFile, l) (KStep, step) s1)) && rn); cbn; auto. }
+                (fun r => Inv hh (fst r) /\ NF [] s (fst r) /\ In (KFile, l) (KL (nodes (fst r))) /\ GG s (fst r))).
+  { intros s1 H1 H2 H3 H4. cbn zeta. destruct (negb (negb (has_dep (KFile, l) (KStep, step) s1)) && rn); cbn; auto. }
   apply wpg_bind.
   destruct (find_node (KFile, l) s) as [n|] eqn:Hn.
   2:{ eapply wpg_weaken; [apply Hcreate; rewrite is_detached_findn; unfold find_node in Hn;
                           fold (findn (KFile, l) (nodes s)) in Hn; rewrite Hn; reflexivity|].
-      intros s1 [H1 [H2 H3]]. apply Hfin; assumption. }
+      intros s1 [H1 [H2 [H3 H4]]]. apply Hfin; assumption. }
   unfold find_node in Hn. fold (findn (KFile, l) (nodes s)) in Hn.
   pose proof (findn_In _ _ _ Hn) as [Hin Hkey].
   destruct (ncre n) as [c|] eqn:Hc.
@@ -162,8 +165,8 @@ Proof.
     + assert (Hok : wpg strict (Ok s) (fun s1 => wpg strict
                  (let isnew := negb (has_dep (KFile, l) (KStep, step) s1) in
                   if negb isnew && rn then Usage 205 else Ok (s1, isnew))
-                 (fun r => Inv hh (fst r) /\ NF [] s (fst r) /\ In (KFile, l) (KL (nodes (fst r)))))).
-      { cbn [wpg]. apply Hfin; [exact HI | apply NF_refl |]. rewrite <- Hkey. apply in_map. exact Hin. }
+                 (fun r => Inv hh (fst r) /\ NF [] s (fst r) /\ In (KFile, l) (KL (nodes (fst r))) /\ GG s (fst r)))).
+      { cbn [wpg]. apply Hfin; [exact HI | apply NF_refl | | apply GG_refl]. rewrite <- Hkey. apply in_map. exact Hin. }
       destruct fs; try exact Hok. exact I.
     + destruct strict; [|exact I]. cbn. rewrite fstate_of_findf in Hfs.
       destruct (findf l (files s)) eqn:Hr; [discriminate|]. apply findf_none in Hr. apply Hr.
@@ -172,7 +175,7 @@ Proof.
     + apply Hcreate. rewrite is_detached_findn, Hn.
       assert (Hl : local_ok (nodes s) n). { apply (nw_local _ HW); [exact Hin | rewrite Hkey; discriminate]. }
       unfold local_ok in Hl. rewrite Hc in Hl. exact Hl.
-    + intros s1 [H1 [H2 H3]]. apply Hfin; assumption.
+    + intros s1 [H1 [H2 [H3 H4]]]. apply Hfin; assumption.
 Qed.
 
 Lemma would_cycle_false sink srcs s :
@@ -191,39 +194,43 @@ Qed.
 
 Lemma supply_files_spec strict step paths rn dyn s :
   Inv hh s -> In (KStep, step) (KL (nodes s)) ->
-  wpg strict (supply_files step paths rn dyn s) (fun s' => Inv hh s' /\ NF [] s s').
+  wpg strict (supply_files step paths rn dyn s) (fun s' => Inv hh s' /\ NF [] s s' /\ GG s s').
 Proof.
   intros HI Hstep. unfold supply_files. apply wpg_bind.
   eapply wpg_weaken.
   { apply (wpg_foldM strict _ (fun acc : st * list str =>
-             Inv hh (fst acc) /\ NF [] s (fst acc) /\ (forall l, In l (snd acc) -> In (KFile, l) (KL (nodes (fst acc)))))).
-    - intros acc l _ [H1 [H2 H3]]. apply wpg_bind.
+             Inv hh (fst acc) /\ NF [] s (fst acc) /\ (forall l, In l (snd acc) -> In (KFile, l) (KL (nodes (fst acc)))) /\
+             GG s (fst acc))).
+    - intros acc l _ [H1 [H2 [H3 H4]]]. apply wpg_bind.
       eapply wpg_weaken; [apply resolve_supply_file_spec; exact H1|].
-      intros r [R1 [R2 R3]]. cbn [wpg fst snd]. split; [exact R1|]. split; [eapply NF_trans; eassumption|].
+      intros r [R1 [R2 [R3 R4]]]. cbn [wpg fst snd]. split; [exact R1|]. split; [eapply NF_trans; eassumption|].
+      split; [|eapply GG_trans; eassumption].
       intros l' Hl'. destruct (snd r).
       + apply in_app_or in Hl'. destruct Hl' as [Hl'|[<-|[]]]; [|exact R3]. apply (proj1 R2). apply H3. exact Hl'.
       + apply (proj1 R2). apply H3. exact Hl'.
-    - cbn. split; [exact HI|]. split; [apply NF_refl | intros l []]. }
-  intros [s1 news] [H1 [H2 H3]]. cbn [fst snd] in *.
+    - cbn. split; [exact HI|]. split; [apply NF_refl |]. split; [intros l [] | apply GG_refl]. }
+  intros [s1 news] [H1 [H2 [H3 H4g]]]. cbn [fst snd] in *.
   assert (Hstep1 : In (KStep, step) (KL (nodes s1))) by (apply (proj1 H2); exact Hstep).
   assert (Hadd : (forall l, In l news -> ~ path (EL (deps s1)) (KStep, step) (KFile, l)) ->
             wpg strict (foldM (fun s l => add_dep (KFile, l) (KStep, step) dyn s) news s1)
-                (fun s' => Inv hh s' /\ NF [] s s')).
+                (fun s' => Inv hh s' /\ NF [] s s' /\ GG s s')).
   { intros Hnp. eapply wpg_weaken.
     - apply (wpg_foldM_rem strict _ (fun rest s' =>
-               Inv hh s' /\ nodes s' = nodes s1 /\ incl rest news /\
+               (Inv hh s' /\ G3 s1 s') /\ nodes s' = nodes s1 /\ incl rest news /\
                (forall l, In l rest -> ~ path (EL (deps s')) (KStep, step) (KFile, l)))).
-      + intros s' l rest [I1 [I2 [I3 I4]]]. eapply wpg_weaken.
+      + intros s' l rest [[I1 I1g] [I2 [I3 I4]]]. eapply wpg_weaken.
         * apply (@add_dep_spec hh); [exact I1 | rewrite I2; apply H3; apply I3; left; reflexivity
                               | rewrite I2; exact Hstep1 | apply I4; left; reflexivity
                               | intros sl f Ha; discriminate | reflexivity].
-        * intros s'' [J1 J2]. split; [exact J1|]. subst s''. cbn [nodes deps set_deps].
+        * intros s'' [J1 J2]. split; [split; [exact J1 | subst s''; eapply G3_trans; [exact I1g | apply set_deps_G3]]|].
+          subst s''. cbn [nodes deps set_deps].
           split; [exact I2|]. split; [intros x Hx; apply I3; right; exact Hx|].
           intros l' Hl' Hp. apply path_app_edge in Hp. destruct Hp as [Hp|[Hp _]].
           -- apply (I4 l'); [right; exact Hl' | exact Hp].
           -- apply (I4 l); [left; reflexivity | exact Hp].
-      + split; [exact H1|]. split; [reflexivity|]. split; [apply incl_refl | exact Hnp].
-    - intros s' [J1 [J2 _]]. split; [exact J1|]. eapply NF_nodes_eq; [exact H2 | exact J2]. }
+      + split; [split; [exact H1 | apply G3_refl]|]. split; [reflexivity|]. split; [apply incl_refl | exact Hnp].
+    - intros s' [[J1 J1g] [J2 _]]. split; [exact J1|]. split; [eapply NF_nodes_eq; [exact H2 | exact J2]|].
+      eapply GG_trans; [exact H4g | apply G3_GG; exact J1g]. }
   destruct news as [|l0 news'].
   - apply Hadd. intros l [].
   - destruct (would_cycle (KStep, step) (map (fun l => (KFile, l)) (l0 :: news')) s1) eqn:Ewc; [exact I|].
@@ -234,7 +241,7 @@ Lemma add_output_edge_spec strict step l dyn s :
   Inv hh s -> In (KStep, step) (KL (nodes s)) -> In (KFile, l) (KL (nodes s)) ->
   creator_of (KFile, l) s = Some (KStep, step) ->
   (exists st, fstate_of l s = Some st /\ out_state st = true) ->
-  wpg strict (add_output_edge step l dyn s) (fun s' => Inv hh s' /\ nodes s' = nodes s).
+  wpg strict (add_output_edge step l dyn s) (fun s' => Inv hh s' /\ nodes s' = nodes s /\ GG s s').
 Proof.
   intros HI H1 H2 Hcre Hout. unfold add_output_edge.
   destruct (would_cycle (KFile, l) [(KStep, step)] s) eqn:Ewc; [exact I|].
@@ -246,7 +253,7 @@ Proof.
       split; [congruence|]. destruct Hout as [st0 [Hs1 Hs2]]. rewrite fstate_of_findf in Hs1.
       destruct (findf l (files s)) as [r|]; [|discriminate]. exists r. split; [reflexivity|].
       cbn in Hs1. congruence.
-  - intros s' [J1 ->]. split; [exact J1 | reflexivity].
+  - intros s' [J1 ->]. split; [exact J1|]. split; [reflexivity | apply G3_GG; apply set_deps_G3].
 Qed.
 
 (* ------------------------------------------------------------------------------------------ *)
@@ -269,33 +276,38 @@ Proof.
   unfold fkeys. rewrite in_map_iff. split; [intros [x [Hx Hin]]; inversion Hx; subst; exact Hin | intros H; exists l; auto].
 Qed.
 
+Lemma creator_quiet_GG cr f s s' : creator_quiet cr f s -> GG s s' -> creator_quiet cr f s'.
+Proof. intros Hq HG x Hx H1 H2 Hs. apply (Hq x Hx H1 H2). apply (gg_succ _ _ HG). exact Hs. Qed.
+
 Lemma declare_fold_spec strict c f (after : str -> st -> res st) ls s :
   (f = FUnconfirmed \/ f = FPlanned \/ f = FVolatile) ->
   (forall l s1, Inv hh s1 -> In c (KL (nodes s1)) -> In (KFile, l) (KL (nodes s1)) ->
                 creator_of (KFile, l) s1 = Some c ->
                 (exists st, fstate_of l s1 = Some st /\ (st = f \/ out_state st = true)) ->
-                wpg strict (after l s1) (fun s2 => Inv hh s2 /\ nodes s2 = nodes s1)) ->
+                wpg strict (after l s1) (fun s2 => Inv hh s2 /\ nodes s2 = nodes s1 /\ GG s1 s2)) ->
   Inv hh s -> In c (KL (nodes s)) ->
   (strict = true -> fst c <> KFile /\ creator_kind_ok KFile (fst c) = true /\ NoDup ls /\
                     forall l, In l ls -> is_detached (KFile, l) s = true) ->
   wpg strict (foldM (fun s l => do s' <- declare_file c l f s; after l s') ls s)
-      (fun s' => Inv hh s' /\ NF (fkeys ls) s s').
+      (fun s' => Inv hh s' /\ NF (fkeys ls) s s' /\ (creator_quiet (Some c) f s -> GG s s')).
 Proof.
   intros Hf Hafter HI Hc Hst.
   eapply wpg_weaken.
   - apply (wpg_foldM_rem strict _ (fun rest s' =>
-             Inv hh s' /\ NF (fkeys ls) s s' /\ incl rest ls /\
+             (Inv hh s' /\ (creator_quiet (Some c) f s -> GG s s')) /\ NF (fkeys ls) s s' /\ incl rest ls /\
              (strict = true -> NoDup rest /\ forall l, In l rest -> is_detached (KFile, l) s' = true))).
-    + intros s' l rest [I1 [I2 [I3 I4]]].
+    + intros s' l rest [[I1 I1g] [I2 [I3 I4]]].
       assert (Hc' : In c (KL (nodes s'))) by (apply (proj1 I2); exact Hc).
       apply wpg_bind. eapply wpg_weaken.
       * apply declare_file_spec; [exact I1|]. intros Hs. destruct (Hst Hs) as [S1 [S2 _]].
         destruct (I4 Hs) as [S3 S4]. split; [exact Hf|]. split.
         -- split; [apply find_node_KL; exact Hc'|]. split; [intros He; apply S1; rewrite He; reflexivity | exact S2].
         -- apply S4. left. reflexivity.
-      * intros s1 [J1 [J2 [J3 [J4 J5]]]]. eapply wpg_weaken.
+      * intros s1 [J1 [J2 [J3 [J4 [J5 J6]]]]]. eapply wpg_weaken.
         -- apply Hafter; [exact J1 | apply (proj1 J2); exact Hc' | exact J3 | exact J4 | exact J5].
-        -- intros s2 [K1 K2]. split; [exact K1|].
+        -- intros s2 [K1 [K2 K3]]. split.
+           { split; [exact K1|]. intros Hq. pose proof (I1g Hq) as G1.
+             eapply GG_trans; [exact G1|]. eapply GG_trans; [|exact K3]. apply J6. eapply creator_quiet_GG; eassumption. }
            assert (HNF : NF (fkeys ls) s' s2).
            { eapply NF_nodes_eq; [|exact K2]. eapply NF_weaken; [|exact J2].
              intros x [<-|[]]. apply In_fkeys. apply I3. left. reflexivity. }
@@ -306,9 +318,9 @@ Proof.
            rewrite is_detached_findn, K2. apply (proj2 J2).
            ++ intros [He|[]]. inversion He; subst. contradiction.
            ++ apply S4. right. exact Hl'.
-    + split; [exact HI|]. split; [apply NF_refl|]. split; [apply incl_refl|].
+    + split; [split; [exact HI | intros _; apply GG_refl]|]. split; [apply NF_refl|]. split; [apply incl_refl|].
       intros Hs. destruct (Hst Hs) as [_ [_ [S3 S4]]]. auto.
-  - intros s' [J1 [J2 _]]. auto.
+  - intros s' [[J1 J1g] [J2 _]]. auto.
 Qed.
 
 Lemma phrase_fold_spec strict ls s :
@@ -350,7 +362,7 @@ Proof. intros H. rewrite !is_detached_findn, H. reflexivity. Qed.
 (* ------------------------------------------------------------------------------------------ *)
 Lemma declare_static_files_spec strict c paths s :
   Inv hh s -> (strict = true -> find_node c s <> None /\ creator_kind_ok KFile (fst c) = true /\ NoDup paths) ->
-  wpg strict (declare_static_files c paths s) (fun s' => Inv hh s').
+  wpg strict (declare_static_files c paths s) (fun s' => Inv hh s' /\ GG s s').
 Proof.
   intros HI Hst. unfold declare_static_files.
   destruct (is_some (find_node c s)) eqn:Ec; cbn [negb].
@@ -362,20 +374,30 @@ Proof.
   2:{ intros s0 a. rewrite bind_ok_r. reflexivity. }
   eapply wpg_weaken.
   - apply declare_fold_spec; [auto | | exact HI | exact Ec |].
-    + intros l s1 H1 _ _ _ _. cbn. auto.
+    + intros l s1 H1 _ _ _ _. cbn. split; [exact H1|]. split; [reflexivity | apply GG_refl].
     + intros Hs. destruct (Hst Hs) as [_ [S2 S3]]. split; [|split; [exact S2|split; [apply T3; exact S3 | exact T1]]].
       intros He. rewrite He in S2. discriminate.
-  - intros s' [H _]. exact H.
+  - intros s' [H [_ HG]]. split; [exact H|]. apply HG. intros x _ Hx. congruence.
 Qed.
 
 (* ------------------------------------------------------------------------------------------ *)
 (* define_step                                                                                 *)
 (* ------------------------------------------------------------------------------------------ *)
+Lemma fold_add_env_G3 label dyn rep env s :
+  G3 s (fold_left (fun s e => add_env label e dyn rep s) env s).
+Proof.
+  apply (fold_left_inv (fun s e => add_env label e dyn rep s) (fun s' => G3 s s')); [|apply G3_refl].
+  intros s' e H. eapply G3_trans; [exact H | apply add_env_G3].
+Qed.
+
+Lemma not_succ_GG l s s' : sstate_of l s <> Some SSucceeded -> GG s s' -> sstate_of l s' <> Some SSucceeded.
+Proof. intros H HG Hs. apply H. apply (gg_succ _ _ HG). exact Hs. Qed.
+
 Lemma define_step_new_spec strict creator label inp env out vol nd s :
   Inv hh s ->
   (strict = true -> creator_good (KStep, label) creator s /\ is_detached (KStep, label) s = true /\
                     NoDup out /\ NoDup vol) ->
-  wpg strict (define_step_new creator label inp env out vol nd s) (fun s' => Inv hh s').
+  wpg strict (define_step_new creator label inp env out vol nd s) (fun s' => Inv hh s' /\ GG s s').
 Proof.
   intros HI Hst. unfold define_step_new. set (k := (KStep, label)).
   apply wpg_bind. eapply wpg_weaken; [apply phrase_fold_spec; exact HI|]. intros u1 Hout. cbn beta in Hout.
@@ -385,13 +407,20 @@ Proof.
   apply wpg_bind. eapply wpg_weaken.
   { apply (@create_spec hh); [exact HI | reflexivity |]. intros Hs. destruct (Hst Hs) as [S1 [S2 _]].
     split; [apply creator_ok_good; exact S1|]. split; [exact S2 | intros f Hf; discriminate]. }
-  intros s1 [I1 [NF1 [K1 _]]].
+  intros s1 [I1 [NF1 [K1 [_ [_ [_ [G1 P1]]]]]]].
+  assert (G01 : GG s s1). { apply G1. intros f Hf. discriminate. }
+  assert (Hp1 : sstate_of label s1 = Some SPending) by (apply (P1 nd); reflexivity).
   apply wpg_bind. eapply wpg_weaken; [apply supply_files_spec; [exact I1 | exact K1]|].
-  intros s2 [I2 NF2].
+  intros s2 [I2 [NF2 G12]].
   assert (K2 : In k (KL (nodes s2))) by (apply (proj1 NF2); exact K1).
   destruct (fold_add_env_inv label false true env s2 I2 K2) as [I3 N3].
+  pose proof (fold_add_env_G3 label false true env s2) as G23.
   set (s3 := fold_left (fun s e => add_env label e false true s) env s2) in *.
+  assert (G03 : GG s s3). { eapply GG_trans; [exact G01|]. eapply GG_trans; [exact G12 | apply G3_GG; exact G23]. }
   assert (K3 : In k (KL (nodes s3))) by (rewrite N3; exact K2).
+  assert (Hq3 : forall f, creator_quiet (Some k) f s3).
+  { intros f x Hx _ _. inversion Hx; subst x. eapply not_succ_GG; [|eapply GG_trans; [exact G12 | apply G3_GG; exact G23]].
+    rewrite Hp1. discriminate. }
   assert (Hdet3 : forall l, is_detached (KFile, l) s = true -> is_detached (KFile, l) s3 = true).
   { intros l Hd. rewrite (is_detached_nodes_eq _ _ _ N3). apply (proj2 NF2); [intros []|].
     apply (proj2 NF1); [|exact Hd]. intros [He|[]]. discriminate. }
@@ -399,7 +428,7 @@ Proof.
              forall l s1, Inv hh s1 -> In k (KL (nodes s1)) -> In (KFile, l) (KL (nodes s1)) ->
              creator_of (KFile, l) s1 = Some k ->
              (exists st, fstate_of l s1 = Some st /\ (st = f \/ out_state st = true)) ->
-             wpg strict (add_output_edge label l false s1) (fun s2 => Inv hh s2 /\ nodes s2 = nodes s1)).
+             wpg strict (add_output_edge label l false s1) (fun s2 => Inv hh s2 /\ nodes s2 = nodes s1 /\ GG s1 s2)).
   { intros f Hf l t H1 H2 H3 H4 [st0 [H5 H6]]. apply add_output_edge_spec; try assumption.
     exists st0. split; [exact H5|]. destruct H6 as [->|H6]; [destruct Hf as [->| ->]; reflexivity | exact H6]. }
   apply wpg_bind. eapply wpg_weaken.
@@ -407,7 +436,7 @@ Proof.
       [auto | apply Hafter; auto | exact I3 | exact K3 |].
     intros Hs. destruct (Hst Hs) as [_ [_ [S3 _]]]. split; [discriminate|]. split; [reflexivity|].
     split; [exact S3|]. intros l Hl. apply Hdet3. apply Hout. exact Hl. }
-  intros s4 [I4 NF4].
+  intros s4 [I4 [NF4 G34]]. specialize (G34 (Hq3 FPlanned)).
   eapply wpg_weaken.
   { apply (declare_fold_spec strict k FVolatile (fun l s => add_output_edge label l false s) vol s4);
       [auto | apply Hafter; auto | exact I4 | apply (proj1 NF4); exact K3 |].
@@ -415,15 +444,16 @@ Proof.
     split; [exact S4|]. intros l Hl. apply (proj2 NF4).
     - intros Hin. apply In_fkeys in Hin. exact (Hdisj l Hin Hl).
     - apply Hdet3. apply Hvol. exact Hl. }
-  intros s5 [I5 _]. exact I5.
+  intros s5 [I5 [_ G45]]. split; [exact I5|].
+  eapply GG_trans; [exact G03|]. eapply GG_trans; [exact G34|]. apply G45.
+  intros x _ _ Hv. exfalso. apply Hv. reflexivity.
 Qed.
-
 
 Lemma define_step_spec strict creator label inp env out vol nd s :
   Inv hh s ->
   (strict = true -> find_node creator s <> None /\
                     creator_kind_ok KStep (fst creator) = true /\ NoDup out /\ NoDup vol) ->
-  wpg strict (define_step creator label inp env out vol nd s) (fun s' => Inv hh s').
+  wpg strict (define_step creator label inp env out vol nd s) (fun s' => Inv hh s' /\ GG s s').
 Proof.
   intros HI Hst. unfold define_step. set (k := (KStep, label)).
   destruct (is_some (find_node creator s)) eqn:Ec; cbn [negb].
@@ -433,7 +463,7 @@ Proof.
   destruct (key_eqb creator k) eqn:Eself; [exact I|]. apply key_eqb_neq in Eself.
   destruct (mem_key creator (rec_products k s)) eqn:Ecyc; [exact I|].
   assert (Hnew : is_detached k s = true ->
-            wpg strict (define_step_new creator label inp env out vol nd s) (fun s' => Inv hh s')).
+            wpg strict (define_step_new creator label inp env out vol nd s) (fun s' => Inv hh s' /\ GG s s')).
   { intros Hd. apply define_step_new_spec; [exact HI|]. intros Hs.
     destruct (Hst Hs) as [S1 [S3 [S4 S5]]]. split; [|split; [exact Hd | split; assumption]].
     split; [exact S1 | split; [exact Eself | exact S3]]. }
@@ -447,21 +477,27 @@ Proof.
   destruct (can_recycle label inp env out vol s); [|apply Hnew; exact Hdk].
   (* full recycle *)
   apply wpg_bind. eapply wpg_weaken.
-  { apply (@node_reattach_spec hh); [exact HI | reflexivity |]. intros Hs.
-    destruct (Hst Hs) as [S1 [S3 _]]. split; [rewrite Hn; discriminate|]. split; [exact S1|].
-    split; [exact Hdk|]. split; [exact Eself | split; [exact S3 | exact Ecyc]]. }
-  intros s1 [I1 [NO1 _]].
+  { apply wpg_conj_lax.
+    - apply (@node_reattach_spec hh); [exact HI | reflexivity |]. intros Hs.
+      destruct (Hst Hs) as [S1 [S3 _]]. split; [rewrite Hn; discriminate|]. split; [exact S1|].
+      split; [exact Hdk|]. split; [exact Eself | split; [exact S3 | exact Ecyc]].
+    - apply (@node_reattach_G3 hh); [exact HI | reflexivity]. }
+  intros s1 [[I1 [NO1 _]] G01].
   set (g := fun r : srow => mkS (sl r) (sst r) nd (sdef r) (sdc r) 0).
   destruct (upd_step_inv label g s1 I1) as [I2 SO2]; [reflexivity | |].
   { intros r Hr _. pose proof (inv_sw _ I1 r Hr) as Hok. unfold sw_ok_b, g in *. cbn [sdef sst shold].
     apply andb_true_iff in Hok. destruct Hok as [Hok _]. rewrite Hok. destruct hh; reflexivity. }
+  assert (G12 : G3 s1 (upd_step label g s1)). { apply upd_step_G3; [reflexivity | intros r; left; reflexivity]. }
   fold g. set (s2 := upd_step label g s1) in *.
-  destruct (sstate_of label s2) as [st0|] eqn:Hss; [|cbn; exact I2].
-  destruct st0; try (cbn; exact I2).
+  assert (G02 : GG s s2). { apply G3_GG. eapply G3_trans; eassumption. }
+  destruct (sstate_of label s2) as [st0|] eqn:Hss; [|cbn; split; assumption].
+  destruct st0; try (cbn; split; assumption).
   eapply wpg_weaken.
-  - apply (@mark_step_pending_spec hh); [exact I2|]. intros _. unfold sstate_of in Hss.
-    destruct (find_step label s2); [discriminate | discriminate].
-  - intros s3 [I3 _]. exact I3.
+  - apply wpg_conj_lax.
+    + apply (@mark_step_pending_spec hh); [exact I2|]. intros _. unfold sstate_of in Hss.
+      destruct (find_step label s2); [discriminate | discriminate].
+    + apply (@mark_step_pending_GG hh). exact I2.
+  - intros s3 [[I3 _] G23]. split; [exact I3 | eapply GG_trans; eassumption].
 Qed.
 
 (* ------------------------------------------------------------------------------------------ *)
@@ -470,7 +506,8 @@ Qed.
 Lemma amend_step_spec strict label inp env out vol s :
   Inv hh s ->
   (strict = true -> find_node (KStep, label) s <> None /\ NoDup out /\ NoDup vol) ->
-  wpg strict (amend_step label inp env out vol s) (fun s' => Inv hh s').
+  wpg strict (amend_step label inp env out vol s)
+      (fun s' => Inv hh s' /\ (sstate_of label s <> Some SSucceeded -> GG s s')).
 Proof.
   intros HI Hst. unfold amend_step. set (k := (KStep, label)).
   destruct (is_some (find_node k s) && is_some (find_step label s)) eqn:Eg; cbn [negb].
@@ -481,10 +518,12 @@ Proof.
         apply is_some_true in H. congruence. }
   apply andb_true_iff in Eg. destruct Eg as [Ek _]. apply is_some_true in Ek. apply find_node_KL in Ek.
   apply wpg_bind. eapply wpg_weaken; [apply supply_files_spec; [exact HI | exact Ek]|].
-  intros s1 [I1 NF1].
+  intros s1 [I1 [NF1 G01]].
   assert (K1 : In k (KL (nodes s1))) by (apply (proj1 NF1); exact Ek).
   destruct (fold_add_env_inv label true false env s1 I1 K1) as [I2 N2].
+  pose proof (fold_add_env_G3 label true false env s1) as G12.
   set (s2 := fold_left (fun s e => add_env label e true false s) env s1) in *.
+  assert (G02 : GG s s2). { eapply GG_trans; [exact G01 | apply G3_GG; exact G12]. }
   assert (K2 : In k (KL (nodes s2))) by (rewrite N2; exact K1).
   apply wpg_bind. eapply wpg_weaken; [apply (todo_fold_spec strict k 62 s2 out I2 []); intros l []|].
   intros out' [O1 [O2 O3]].
@@ -496,7 +535,7 @@ Proof.
              forall l s1, Inv hh s1 -> In k (KL (nodes s1)) -> In (KFile, l) (KL (nodes s1)) ->
              creator_of (KFile, l) s1 = Some k ->
              (exists st, fstate_of l s1 = Some st /\ (st = f \/ out_state st = true)) ->
-             wpg strict (add_output_edge label l true s1) (fun s2 => Inv hh s2 /\ nodes s2 = nodes s1)).
+             wpg strict (add_output_edge label l true s1) (fun s2 => Inv hh s2 /\ nodes s2 = nodes s1 /\ GG s1 s2)).
   { intros f Hf l t H1 H2 H3 H4 [st0 [H5 H6]]. apply add_output_edge_spec; try assumption.
     exists st0. split; [exact H5|]. destruct H6 as [->|H6]; [destruct Hf as [->| ->]; reflexivity | exact H6]. }
   apply wpg_bind. eapply wpg_weaken.
@@ -504,7 +543,7 @@ Proof.
       [auto | apply Hafter; auto | exact I2 | exact K2 |].
     intros Hs. destruct (Hst Hs) as [_ [S3 _]]. split; [discriminate|]. split; [reflexivity|].
     split; [apply O3; exact S3 | exact O1]. }
-  intros s3 [I3 NF3].
+  intros s3 [I3 [NF3 G23]].
   eapply wpg_weaken.
   { apply (declare_fold_spec strict k FVolatile (fun l s => add_output_edge label l true s) vol' s3);
       [auto | apply Hafter; auto | exact I3 | apply (proj1 NF3); exact K2 |].
@@ -512,7 +551,11 @@ Proof.
     split; [apply V3; exact S4|]. intros l Hl. apply (proj2 NF3).
     - intros Hin. apply In_fkeys in Hin. exact (Hdisj l Hin Hl).
     - apply V1. exact Hl. }
-  intros s4 [I4 _]. exact I4.
+  intros s4 [I4 [_ G34]]. split; [exact I4|]. intros Hns.
+  assert (Hq2 : creator_quiet (Some k) FPlanned s2).
+  { intros x Hx _ _. inversion Hx; subst x. eapply not_succ_GG; eassumption. }
+  eapply GG_trans; [exact G02|]. eapply GG_trans; [apply G23; exact Hq2|]. apply G34.
+  intros x _ _ Hv. exfalso. apply Hv. reflexivity.
 Qed.
 
 End HH.
